@@ -903,16 +903,25 @@ static uint64_t run_roundtrip(const RTCase& k, Ctx& c)
             R.up[j] = ext_of_double(B.upperReal(jB[j]));
          }
          bool usable = true;
-         std::vector<int> rowOf(m, -1);
-         for(size_t t = 0; t < ex.rows.size(); ++t) if(rowOf[ex.rows[t].src] < 0) rowOf[ex.rows[t].src] = iB[t]; else usable = false;   // LP split rows: compare via exact path below
+         std::vector<int> rowOf(m, -1), row2(m, -1);
+         for(size_t t = 0; t < ex.rows.size(); ++t) { if(rowOf[ex.rows[t].src] < 0) rowOf[ex.rows[t].src] = iB[t]; else row2[ex.rows[t].src] = iB[t]; }
+         for(int i = 0; i < m && usable; ++i)
+         {
+            R.lhs[i] = ext_of_double(B.lhsReal(rowOf[i]));
+            R.rhs[i] = ext_of_double(B.rhsReal(rowOf[i]));
+            for(int j = 0; j < n; ++j) R.A[i][j] = q_of_double(B.rowVectorRealInternal(rowOf[i])[jB[j]]);
+            if(row2[i] >= 0)
+            {
+               // LP format split a ranged row: r_1 carries the left-hand side, r_2 the right-hand side, both the same vector
+               c.count("rt.scaled.split_rows_recombined");
+               if(R.rhs[i].inf <= 0 || ext_of_double(B.lhsReal(row2[i])).inf >= 0) { viol("scaled-file-not-equivalent", "", "split ranged row has unexpected sides"); usable = false; break; }
+               R.rhs[i] = ext_of_double(B.rhsReal(row2[i]));
+               for(int j = 0; j < n; ++j)
+                  if(R.A[i][j] != q_of_double(B.rowVectorRealInternal(row2[i])[jB[j]])) { viol("scaled-file-not-equivalent", "", "the two halves of a split ranged row have different vectors"); usable = false; break; }
+            }
+         }
          if(usable)
          {
-            for(int i = 0; i < m; ++i)
-            {
-               R.lhs[i] = ext_of_double(B.lhsReal(rowOf[i]));
-               R.rhs[i] = ext_of_double(B.rhsReal(rowOf[i]));
-               for(int j = 0; j < n; ++j) R.A[i][j] = q_of_double(B.rowVectorRealInternal(rowOf[i])[jB[j]]);
-            }
             XLP Mx = model;
             if(mps && model.maximize) for(int j = 0; j < n; ++j) Mx.c[j] = -Mx.c[j];
             bool trivial = true;
@@ -920,7 +929,6 @@ static uint64_t run_roundtrip(const RTCase& k, Ctx& c)
             if(!why.empty()) viol("scaled-file-not-equivalent", "", "file written with unscale=false is not a power-of-two row/column scaling of the LP: " + why);
             else c.count(trivial ? "rt.scaled.file_factors_all_one" : "rt.scaled.file_factors_nontrivial");
          }
-         else c.count("rt.scaled.skipped_split_rows");
       }
       for(size_t t = 0; t < ex.cols.size(); ++t) if(jB[t] >= 0 && (biv.pos(jB[t]) >= 0) != ex.cols[t].isint) viol("int-marker-mismatch", "", "column " + ex.cols[t].name);
       if(nviol == 0) c.count("rt.equivalent");
@@ -1092,7 +1100,7 @@ static TinyLP wide_lp(uint64_t idx)
    lp.offset = 0;
    return lp;
 }
-static const uint64_t NWIDE = 2187ULL * 3 * 3 * 4 * 2;      // thorough; quick uses the first 2187*3 (all row-0 patterns x objective patterns)
+static const uint64_t NWIDE = 2187ULL * 3 * 3 * 4 * 2;      // complete product; thorough uses the first 2187*3*3*4 (all but the sense), quick the first 2187*3
 
 // numerics: a fixed 2x2 structure in which one or two slots take every value of a list
 static const double NUMV[] = {0.1, -1.0 / 3.0, 1e-7, 123456.789, 1000000000000001.0, 9.5367431640625e-07, -0.75, 1e20, 3.0000000000000004, 1e-15, 2.5e-16, 65536.000000000015, -1e15, 0.30000000000000004};
@@ -1137,7 +1145,7 @@ int main(int argc, char** argv)
       return replay_case([&](Ctx & c) { replay_one(cs, c); });
    }
    bool thorough = args.tier == "thorough";
-   Report rep(args, "exploration", thorough ? 3300 : 600);
+   Report rep(args, "exploration", thorough ? 5400 : 900);
    RunOpts o = rep.opts();
    o.perturb = {85};
    std::string only = args.get("only");     // debugging aid: run only the phases whose name contains this text
@@ -1251,7 +1259,7 @@ int main(int argc, char** argv)
    }
    // wide rows (more than five entries per line)
    if(want("7-column"))
-   rep.phase("round trips: 7-column LPs (continuation lines)", thorough ? NWIDE : 2187ULL * 3, [&](uint64_t idx, int, Ctx & c) -> uint64_t
+   rep.phase("round trips: 7-column LPs (continuation lines)", thorough ? NWIDE / 2 : 2187ULL * 3, [&](uint64_t idx, int, Ctx & c) -> uint64_t
    {
       RTCase k;
       k.base = wide_lp(idx);
@@ -1292,23 +1300,55 @@ int main(int argc, char** argv)
    // dual writer
    if(want("dual"))
    {
+      // canary: does writeDualFileReal survive an MPS file name at all?  (decides how large the MPS half of the phase can be:
+      // a crash costs a worker restart, so a tree in which every call crashes gets the complete 1x1 family only)
+      bool mpsAlive = false;
+      {
+         fflush(stdout); fflush(stderr);
+         pid_t pid = fork();
+         if(pid == 0)
+         {
+            SoPlex A;
+            quiet(A);
+            load_real(A, TinyLP::parse("n=1;m=1;max=0;off=0;c=1;lo=0;up=inf;lhs=1;rhs=inf;A=1"), 0);
+            std::string path = wfile(".mps");
+            try { A.writeDualFileReal(path.c_str(), nullptr, nullptr, nullptr, false); } catch(...) { _exit(1); }
+            _exit(0);
+         }
+         int st = 0;
+         waitpid(pid, &st, 0);
+         mpsAlive = WIFEXITED(st) && WEXITSTATUS(st) == 0;
+      }
+      rep.extra["dual_writer_mps_canary_survives"] = mpsAlive ? "true" : "false";
       const Family& DF = thorough ? S1 : S0;
-      rep.phase(std::string("dual writer: ") + (thorough ? "family Q" : "quick structural family") + " x {LP,MPS} x wzo", DF.size(), [&](uint64_t idx, int, Ctx & c) -> uint64_t
+      Family D11 = famT(1, 1, {-1, 0, 1}, {-1, 0, 1}, {0, 1, 2, 3, 4}, {0, 1, 2, 3, 4, 5, 6, 7});
+      D11.offsets = {0};
+      int nfmt = mpsAlive ? 2 : 1;
+      rep.phase(std::string("dual writer: ") + (thorough ? "family Q" : "quick structural family") + (mpsAlive ? " x {LP,MPS} x wzo" : " x LP x wzo"), DF.size(), [&](uint64_t idx, int, Ctx & c) -> uint64_t
       {
          TinyLP lp;
          if(!DF.get(idx, lp)) return 0;
          uint64_t h = 1;
-         for(int v = 0; v < 4; ++v) { set_sub(v); h = h * 31 + run_dual(lp, v & 1, (v >> 1) & 1, c); }
+         for(int v = 0; v < 2 * nfmt; ++v) { int fmt = nfmt == 2 ? (v & 1) : 0, wzo = nfmt == 2 ? (v >> 1) : v; set_sub(fmt | (wzo << 1)); h = h * 31 + run_dual(lp, fmt, wzo, c); }
          return h;
       }, [&](uint64_t idx, uint64_t sub) { TinyLP lp; DF.get(idx, lp); return "D|fmt=" + std::to_string(sub & 1) + ",wzo=" + std::to_string((sub >> 1) & 1) + "|" + lp.str(); }, o,
       [&](uint64_t, uint64_t sub) { return std::string("@dual,") + ((sub & 1) ? "MPS" : "LP"); });
+      // complete 1x1 family in MPS format (also when the canary died: these are the cases that document the crash)
+      rep.phase("dual writer: T(1,1) all menus x MPS x wzo", D11.size() * 2, [&](uint64_t idx, int, Ctx & c) -> uint64_t
+      {
+         TinyLP lp;
+         if(!D11.get(idx / 2, lp)) return 0;
+         set_sub(1 | ((idx & 1) << 1));
+         return run_dual(lp, 1, (int)(idx & 1), c);
+      }, [&](uint64_t idx, uint64_t) { TinyLP lp; D11.get(idx / 2, lp); return "D|fmt=1,wzo=" + std::to_string(idx & 1) + "|" + lp.str(); }, o,
+      [&](uint64_t, uint64_t) { return std::string("@dual,MPS"); });
    }
    if(thorough && want("T(3"))
    {
       // larger matrices: T(3,2) and T(2,3) with reduced menus (three-entry columns: MPS pair + single records)
-      Family T32 = famT(3, 2, {0, 1, -1}, {0, 1}, {0, 1, 3}, {0, 2, 3}, 6);
+      Family T32 = famT(3, 2, {0, 1}, {0, 1}, {0, 1, 3}, {0, 2, 3}, 6);
       T32.offsets = {0};
-      Family T23 = famT(2, 3, {0, 1, -1}, {0, 1}, {0, 3}, {0, 2, 3, 4}, 6);
+      Family T23 = famT(2, 3, {0, -1}, {0, 1}, {0, 3}, {0, 2, 3, 4}, 6);
       T23.offsets = {0};
       for(const Family* F : {&T32, &T23})
          rep.phase("round trips: T(" + std::to_string(F->n) + "," + std::to_string(F->m) + ") x fmt x mode x wzo", F->size(), [&, F](uint64_t idx, int, Ctx & c) -> uint64_t
